@@ -8,10 +8,14 @@ import glob, json
 from pathlib import Path
 V = Path(__file__).resolve().parent
 ok, bad = {}, {}
+import re
+KNOWN = [re.compile(k["match"]["harness"]) for k in json.loads((V / "known_findings.json").read_text())["findings"] if k.get("status") == "known" and k.get("engine") == "kani"]
 for f in sorted(glob.glob(str(V / ".work" / "thorough" / "*" / "*.json"))):
     d = json.load(open(f))
     for h in d["coverage"].get("harnesses", []):
-        if h["verdict"] in ("pass", "known-finding"):
+        # under the measurement pseudo-property a known finding (K01) shows as a plain violation: the per-property run
+        # applies the full matcher (harness, description, function) and reports it as KNOWN-FINDING
+        if h["verdict"] in ("pass", "known-finding") or (h["verdict"] == "violation" and any(k.search(h["harness"]) for k in KNOWN)):
             ok[h["harness"]] = h["time_s"]
             bad.pop(h["harness"], None)
         elif h["harness"] not in ok:
